@@ -1460,6 +1460,10 @@ pub mod verif_hooks {
         arithmetic::inverse::impl_inverse_uint_scale(n, scale, ctx)
     }
     pub fn default_precision() -> u64 { DEFAULT_PRECISION }
+    pub fn fmt_config() -> (usize, usize, usize) { impl_fmt::verif_fmt_config() }
+    pub fn make_inv_guess(bit_count: u64, scale: i64) -> BigDecimal {
+        arithmetic::inverse::verif_make_inv_guess(bit_count, scale)
+    }
 }
 
 
